@@ -9,7 +9,7 @@ Check: for every registry pair P(x) vs P(PConstant(x)) vs P(PRef(PConstant(x))) 
 P(PSequence([x1, x2, ...])) with a counting wrapper around the parameter, judged by (a) the use schedule (exactly one
 next() per use), (b) the step-wise scalar reference (the same class with the parameter re-assigned by hand to the value
 the i-th use must see), (c) explicit plain-Python references for the arithmetic classes, (d) the Coq model."""
-import copy as _copy
+import copy as _copy, re
 from pat_common import *
 import c12_registry as REG
 
@@ -46,6 +46,16 @@ MODEL_NARROWER = {
     ("PSequence", "sequence"): "the model takes a literal list only (the constructor rejects patterns)",
 }
 COQ_NAME = {"PRound": "PMap"}
+# value-resolved parameters of modelled classes that the general theorems (Param.vfield) do not cover, with the reason
+THEOREM_TABLE_GAPS = {
+    "PArrayIndex.list": "list-valued (a literal list is special-cased by the model); correspondence and oracles only",
+    "PDictKey.dict": "dict-valued (a literal dict is special-cased by the model); correspondence and oracles only",
+    "PIndexOf.list": "list-valued (a literal list is special-cased by the model); correspondence and oracles only",
+    "PSequence.sequence": "the constructor rejects patterns",
+    "PStutter.count": "block-wise: its own theorems C12_stutter_block_start / C12_stutter_block_rest",
+    "PCollapse.input": "looping class: C12_const_collapse", "PNoRepeats.input": "looping class: C12_const_norepeats",
+    "PRound.args": "list of arguments (PMap): correspondence and oracles only",
+}
 # pairs for which no varying stream can change the outputs, with the reason
 NO_DISCRIMINATION = {
     ("PRandomImpulseSequence", "probability"): "read only when the sequence grows (the length is fixed in these cases)",
@@ -444,7 +454,31 @@ def registry_checks(run, pairs, outside, view):
                 "broken": "correspondence of the parameter registry (Pat/Syntax.v, Pat/Step.v vs %s): %s" % (i["file"], problem),
                 "python": "# compare class %s in isobar/pattern/%s with the clause of %s in coq/Pat/Step.v" % (cls, i["file"], coq_cls)},
                 found_input=False)
+    # the table the theorems quantify over (Param.vfield_names) against the source registry
+    out = run.coq_eval("From Isobar Require Import Pat.Param.\nFrom Coq Require Import String.", "vfield_names")
+    table = set(re.findall(r'\("(\w+)"(?:%string)?, "(\w+)"(?:%string)?\)', out))
+    if len(table) < 10:
+        raise CheckError("cannot read Param.vfield_names: %s" % out[:300])
+    src_table = {}
+    for (cls, param), i in pairs.items():
+        if cls in COQ_CLS and i["attr"] is not None:
+            coq_cls = "PBinOp" if cls in BINOPS else COQ_NAME.get(cls, cls)
+            src_table.setdefault((coq_cls, i["attr"]), []).append((cls, param, i))
+    for key in sorted(table):
+        for cls, param, i in src_table.get(key, [(key[0], key[1], None)]):
+            ok = i is not None and i["mode"] == "value" and schedule_of((cls, param)) in ("step", "ctor+step") and not i["overwrite"]
+            if not ok:
+                run.violation({"kind": "registry", "class": cls, "param": param, "what": "theorem-table"}, {
+                    "broken": "C12_const_equiv / C12_use_schedule quantify over %s.%s (Param.vfield), but the source %s" % (
+                        key[0], key[1], "has no such parameter" if i is None else "uses it as mode=%s, schedule=%s, overwrite=%s" % (i["mode"], schedule_of((cls, param)), i["overwrite"])),
+                    "python": "# compare Param.vfield in coq/Pat/Param.v with class %s" % cls}, found_input=False)
+    not_in_table = sorted("%s.%s" % (c, p) for key, l in src_table.items() for (c, p, i) in l
+                          if i["mode"] in ("value", "items") and key not in table)
+    unexplained = [x for x in not_in_table if x not in THEOREM_TABLE_GAPS]
+    if unexplained:
+        raise CheckError("modelled value-resolved parameters missing from Param.vfield without a stated reason: %s" % unexplained)
     run.cov["registry"] = {
+        "theorem_table_size": len(table), "modelled_parameters_outside_the_theorem_table": {k: THEOREM_TABLE_GAPS[k] for k in not_in_table},
         "pairs_total": len(pairs), "accepting_pairs": len(accepting), "judged_pairs": len(judged),
         "by_mode": {m: sum(1 for i in pairs.values() if i["mode"] == m) for m in ("value", "items", "next", "raw", "unused", "unmapped")},
         "excluded_pairs": {"%s.%s" % k: v for k, v in NOT_ACCEPTING.items()},
